@@ -31,7 +31,7 @@ fn stage(i: &Input, c: &mut Case) -> Result<(), String> {
     }
     let mut d = gen_doc(&mut t, SpecOpts::default(), to, eo);
     if huge {
-        let n = *t.pick(&[65_535usize, 65_536, 65_537, 70_000, 131_072]);
+        let n = *t.pick(&[65_535usize, 65_536, 65_537, 70_000, 131_072, 1 << 20, (1 << 20) + 5]);
         enlarge_one_leaf(&mut t, &mut d.forest, n);
         fix_widths(&mut d.forest);
     }
